@@ -30,7 +30,11 @@ def unit(repo):
     path = os.path.join(repo, SRC)
     if not os.path.exists(path):
         raise AnalysisBroken('%s is gone' % SRC)
-    mod = compile_ir(path, repo, ['-D__NO_CTYPE'])
+    # helper functions a refactoring may introduce (a shared fill/emit loop, a digit-to-character helper, a flag
+    # classifier ...) are folded into their callers; the four routines the rules anchor on stay functions
+    from irlib import keep_all_but_new_helpers
+    mod = compile_ir(path, repo, ['-D__NO_CTYPE'],
+                     inline=keep_all_but_new_helpers(('print_buf', 'print_s', 'print_i', 'print_f')))
     for name, n in SIG.items():
         f = mod.fn(name)
         if f is None or f.decl:
